@@ -76,14 +76,38 @@ def _case(draw, names=None, name=None):
     dom = od.pop('dom')
     return {'op': od,
             'x': draw(zoo.point_descs(dom, orders=('C', 'C', 'C', 'F',
-                                                   'strided')))}
+                                                   'strided'))),
+            # call style: P(y, out=y) at a generated point, or at an
+            # element-valued parameter object of the operator itself
+            'style': draw(st.sampled_from(['point', 'point', 'param'])),
+            'pidx': draw(st.integers(0, 7))}
+
+
+# operators implementing only `_call(self, x)` (probed over the catalogue via
+# `_call_has_out`); 'alias.expr.oop-operand' wraps them in every position
+OOP_POOL = None
+OOP_POOL_SIZE = None
+
+
+def _oop_pool():
+    global OOP_POOL, OOP_POOL_SIZE
+    if OOP_POOL is None:
+        OOP_POOL = list(zoo.get_oop_pool())
+        OOP_POOL_SIZE = len(OOP_POOL)
+        ASSUMPTIONS.append(
+            'operands implementing only the out-of-place _call(self, x) '
+            '(probed over the catalogue): {} entries {}'.format(
+                OOP_POOL_SIZE, OOP_POOL))
+    return OOP_POOL
 
 
 def strategy(tier):
+    _oop_pool()
     return _case(names=_names(tier))
 
 
 def enumerate_cases(tier):
+    _oop_pool()
     return zoo.sweep(lambda n: _case(name=n), _names(tier),
                      per_entry=4 if tier == 'quick' else 10)
 
@@ -126,9 +150,25 @@ def run_case(desc):
     if part is None and dom != ran:
         raise HarnessError('C10 entry {} has domain != range'.format(name))
     x = zoo.point(dom, desc['x'])
+    style = desc.get('style', 'point')
+    if style == 'param' and part is None:
+        # x-is-parameter: the evaluation point is the very object the
+        # operator holds as data term / translation / linear term / prior /
+        # element-valued step / bound / multiplicand
+        params = []
+        for p_ in getattr(op, '_verif_params', []):
+            if p_ in dom and not any(p_ is q for q in params):
+                params.append(p_)
+        if params:
+            x = params[desc.get('pidx', 0) % len(params)]
+        else:
+            style = 'point'
+    else:
+        style = 'point'
     variant = str(opts.get('variant', opts.get('how', '-')))
-    if 'matshape' in opts:
-        variant += ',' + opts['matshape']
+    mshape = opts.get('matshape') or (opts.get('v') or {}).get('matshape')
+    if mshape:
+        variant += ',' + mshape
     # region: the options that select a code path of the proximal (data
     # term, step kind) and the coarse space kind; wrappers keep their entry
     vshort = ','.join(variant.split(',')[:2])
@@ -139,7 +179,16 @@ def run_case(desc):
               'variant:{}|{}'.format(name, variant),
               'space:' + zoo._space_tag(ran)]
 
+    if style == 'param':
+        strata.append('x-is-parameter')
+        strata.append('x-is-parameter:' + name)
+    V = getattr(op, '_verif_oop_operand', None)
+    if V is not None and not type(V)._call_has_out:
+        strata.append('operand-oop-only')
+
     def sig(clause, extra=''):
+        if style == 'param':
+            extra = (extra + '|' if extra else '') + 'x-is-parameter'
         return 'C10|{}|{}|{}{}'.format(clause, cls, region,
                                        '|' + extra if extra else '')
 
@@ -176,7 +225,9 @@ def run_case(desc):
                             name, msg))
 
     # aliased call
-    y = _copy(x, dom)
+    # (the reference r and the guard z were computed above, before the
+    # parameter object is overwritten)
+    y = x if style == 'param' else _copy(x, dom)
     target = y if part is None else y[part]
     otherb = None if part is None else _bytes(y[1 - part], dom[1 - part])
     try:
@@ -190,7 +241,7 @@ def run_case(desc):
         raise Violation(sig('identity'), name + ': P(y, out=y) is not y')
     # tolerance scale includes |x| (cancellation in x - shrink(x))
     la, lb = _leaves(target, ran), _leaves(r, ran)
-    xs = _maxabs(x, dom)
+    xs = _maxabs(x0, dom)
     epsmax = max([np.finfo(np.asarray(a).dtype).eps for a in la
                   if np.asarray(a).dtype.kind in 'fc'] or [0.0])
     bad = None
@@ -235,7 +286,7 @@ def run_case(desc):
     # non-triviality: P(x) != x and P(x) != 0
     rmax = _maxabs(r, ran)
     if part is None:
-        moved = compare(r, x, ran, True, 0) is not None
+        moved = compare(r, x0, ran, True, 0) is not None
     else:
         moved = compare(r, x[part], ran, True, 0) is not None
     nontriv = moved and rmax > 0
@@ -249,7 +300,8 @@ def run_case(desc):
 
 REQUIRED_STRATA = ['entry:' + n for n, e in zoo.ENTRIES.items()
                    if e.c10 and n != 'fprox.IndicatorNuclearNormUnitBall'] + \
-    ['moved', 'space:pspace', 'space:discr', 'space:tensor']
+    ['moved', 'space:pspace', 'space:discr', 'space:tensor',
+     'x-is-parameter', 'operand-oop-only']
 
 _cats = sorted({s[4] for s in SITES})
 ASSUMPTIONS = ASSUMPTIONS + [
